@@ -39,8 +39,35 @@ CHECK_PROFILES = {
 VA_ARG_ARTEFACT = re.compile(r"\*\(\([^)]*\*\)\s*\*?\(?\s*(argptr|ap|\w*va_args?\w*|&?va_arg\w*)")
 
 
+def _load_measured():
+    try:
+        return json.load(open(os.path.join(VERIF, "registry", "measured_tiers.json")))
+    except Exception:
+        return {}
+
+
 class H:
     """One harness configuration = one solver query (plus its witness)."""
+    MEASURED = None
+
+    # Tier placement from measurements (registry/measured_tiers.json, written from tools/thorough_smoke.py runs): a harness that
+    # gave no verdict within the measurement cap is in no registered tier ("drop": stated as outside the claim), a fast one
+    # that a registry had left thorough-only is also run in the quick tier.
+    @property
+    def tiers(self):
+        if H.MEASURED is None:
+            H.MEASURED = _load_measured()
+        ov = H.MEASURED.get(self.name)
+        if ov and self.probe_for is None:
+            if ov["tier"] == "drop":
+                return ()
+            if ov["tier"] == "quick" and self._tiers:
+                return ("quick", "thorough")
+        return self._tiers
+
+    @tiers.setter
+    def tiers(self, v):
+        self._tiers = tuple(v)
 
     def __init__(self, name, src, link=(), stubs=(), defines=None, unwind=1, unwindset=(),
                  checks="mem", extra=(), solver="default", timeout=600, tiers=("quick", "thorough"),
@@ -58,6 +85,7 @@ class H:
         self.extra = tuple(extra)
         self.solver = solver                # default | cadical | kissat | minisat2
         self.timeout = timeout
+        self.probe_for = probe_for
         self.tiers = tuple(tiers)
         self.kf = tuple(kf)                 # known-finding keys this harness may exclude (define KF_<key>)
         self.bounds = bounds
